@@ -22,6 +22,7 @@ type initSnapshot struct {
 	objs     map[interface{}]interface{}
 	skipped  []string
 	interior map[*value]aggInfo
+	tmpls    map[*value]*tmplState
 }
 
 type aggInfo struct {
@@ -292,6 +293,14 @@ func (e *Engine) takeSnapshot() {
 	for k, v := range e.onces {
 		s.onces[c.copy(k).(*value)] = v
 	}
+	s.tmpls = map[*value]*tmplState{}
+	for k, v := range e.objs {
+		if t, ok := v.(*tmplState); ok {
+			if kp, ok := k.(*value); ok {
+				s.tmpls[c.copy(kp).(*value)] = t
+			}
+		}
+	}
 	for k, v := range e.mutexes {
 		if v.locked {
 			e.snapshotUnsafe = true
@@ -327,6 +336,9 @@ func (e *Engine) restoreSnapshot() {
 		if v, ok := s.onces[old]; ok {
 			e.onces[n] = v
 		}
+		if t, ok := s.tmpls[old]; ok {
+			e.objs[n] = t
+		}
 	}
 	e.pathCopier = c
 	e.globals = make(map[*ssa.Global]*value, 64)
@@ -339,7 +351,9 @@ func (e *Engine) restoreSnapshot() {
 func nonOnceObjs(m map[interface{}]interface{}) int {
 	n := 0
 	for _, v := range m {
-		if _, ok := v.(*onceState); !ok {
+		switch v.(type) {
+		case *onceState, *tmplState:
+		default:
 			n++
 		}
 	}
